@@ -4,15 +4,17 @@ import driver
 
 def run(ctx):
     b = ctx.build("internal/zzverif/c08")
-    n = 1 if ctx.replay else 14
-    ctx.run_shards(b, "TestVerifC08", n, 600 if ctx.tier == "quick" else 3000, "c08")
+    if ctx.replay:
+        ctx.run_shards(b, "TestVerifC08", 1, 600, "c08")
+    else:
+        driver.run_scaled(ctx, b, "TestVerifC08", 14, 3000, "c08")
     if ctx.tier == "thorough" and not ctx.replay:
         br = ctx.build("internal/zzverif/c08", race=True)
         ctx.run_shards(br, "TestVerifC08", 14, 3000, "c08race", extra_env={"VERIF_TIER": "quick"}, race=True)
     return driver.finish(
         ctx, "exploration",
         "for each of the 8 codecs reachable through enc.FromCode: all strings of length 0-2 (exhaustive), every length 0..N "
-        "(N=2600 quick, 8192 thorough) with repeated-byte/counter/random content, all single-bit strings up to 40/130 bytes; "
+        "(N=8192; quick = one seed, thorough = three seeds) with repeated-byte/counter/random content, all single-bit strings up to 40/130 bytes; "
         "oracle: Decode(Encode(x))==x without error, no output byte in {'.','\\\\',' ',0x00-0x1f,0x7f}, len(out) <= ceil(len*Ratio())+8 "
         "(Raw: lossless only). A case is distinct by (codec, input bytes); every case runs the full oracle so each is non-trivial.",
         ["enc.FromCode lists every selectable codec", "reference oracle is the identity on byte strings; no model of the codecs"],
